@@ -154,6 +154,9 @@ def generate(seed, tier, idx=0):
              for _ in range(k)]
     if k > 1 and rng.random() < 0.4:
         seeds[1] = seeds[0]         # equal seeds on purpose
+    if rng.random() < 0.03:
+        # an int of more than 4300 decimal digits (Mersenne prime 2**19937-1, 10**5000)
+        seeds[rng.randrange(k)] = rng.choice([["pow", 2, 19937, -1], ["pow", 10, 5000, 7]])
     clock0 = None
     if rng.random() < 0.12:
         # the documented no-seed form MersenneTwister(): the seed is taken from the
@@ -189,7 +192,8 @@ def generate(seed, tier, idx=0):
         elif r < 0.68:
             ops.append([s, "bool"])
         elif r < 0.76:
-            ops.append([s, "set_seed", rng.choice(SEEDS)])
+            ops.append([s, "set_seed", rng.choice(SEEDS) if rng.random() > 0.03
+                        else ["pow", 2, 19937, -1]])
         elif r < 0.86:
             ops.append([s, "reset"])
         elif r < 0.92:
@@ -249,8 +253,24 @@ def _unseeded(clock0):
         _streams_mod.time = real
 
 
+def _show(x):
+    if isinstance(x, int) and not isinstance(x, bool) and x.bit_length() > 4000:
+        return "<int of %d bits>" % x.bit_length()
+    return repr(x)
+
+
+def _seed(x):
+    """Seeds with more than 4300 decimal digits cannot be written as JSON numbers (nor
+    printed): cases carry them as ["pow", base, exponent, addend]."""
+    if isinstance(x, list):
+        return x[1] ** x[2] + x[3]
+    return x
+
+
 def run_history(case):
-    seeds = list(case["seeds"])
+    seeds = [_seed(s) for s in case["seeds"]]
+    case = dict(case, ops=[[op[0], op[1], _seed(op[2])] + list(op[3:])
+                           if op[1] == "set_seed" else op for op in case["ops"]])
     subj = []
     for j, s in enumerate(seeds):
         if s is None:
@@ -285,10 +305,11 @@ def run_history(case):
                 return ("out-of-range", "op #%d on stream %d: %s" % (i, s, bad)), info
             if a != b or type(a) is not type(b):
                 return ("not-reproducible",
-                        "op #%d %s on stream %d (seed %d, %d draws since seeding) "
+                        "op #%d %s on stream %d (seed %s, %d draws since seeding) "
                         "returned %r; a freshly constructed stream with that seed "
                         "given the same draws returns %r"
-                        % (i, op[1:], s, lin_seed[s], len(since[s]), a, b)), info
+                        % (i, [_show(x) for x in op[1:]], s, _show(lin_seed[s]),
+                           len(since[s]), a, b)), info
             since[s].append(op)
             outputs[s].append(a)
         elif name == "set_seed":
@@ -298,11 +319,11 @@ def run_history(case):
             shadow[s] = MersenneTwister(op[2])
             since[s] = []
             if subj[s].seed() != op[2]:
-                return ("seed-getter", "after set_seed(%d) seed() returns %r"
-                        % (op[2], subj[s].seed())), info
+                return ("seed-getter", "after set_seed(%s) seed() returns %s"
+                        % (_show(op[2]), _show(subj[s].seed()))), info
             if subj[s].original_seed() != seeds[s]:
-                return ("seed-getter", "original_seed() changed from %r to %r after "
-                        "set_seed" % (seeds[s], subj[s].original_seed())), info
+                return ("seed-getter", "original_seed() changed from %s to %s after "
+                        "set_seed" % (_show(seeds[s]), _show(subj[s].original_seed()))), info
         elif name == "reset":
             subj[s].reset()
             shadow[s] = MersenneTwister(cur_seed[s])
